@@ -5,7 +5,8 @@
      caps_in   every capture group and every loop reset range of a node lies in [sg, eg);
      bt_wf     a lookaround's [sg, eg) covers its body and lies within the group table. *)
 From RV Require Import Base.
-From RV.Model Require Import Utf8 Indexer CodePointSet Insn IR.
+From RV.Model Require Import Utf8 Indexer CodePointSet Insn IR Optimizer Unfold Emit.
+From RV.Spec Require Import IRSem.
 
 Fixpoint nloops (n : node) : nat :=
   match n with
@@ -39,12 +40,22 @@ Fixpoint caps_in (sg eg : nat) (n : node) : bool :=
   | _ => true
   end.
 
-(* what the backtracker's theorem assumes of an IR ([ng] = size of the group table); Loop1CharBody is not
-   covered by that theorem yet *)
+(* what the backtracker's theorem assumes of an IR ([ng] = size of the group table) *)
+(* Loop1CharBody in the backtracker: the dispatch of with_scm_loop_impl knows byte literals of at most 6 bytes and
+   has no matcher for JustFail (an empty set); min <= max as the parser guarantees *)
+Definition bt_l1_ok (body : node) (mn : N) (mx : option N) : bool :=
+  l1_body_ok body &&
+  match body with
+  | NByteSequence bs => (length bs <=? 6)%nat
+  | NByteSet [] | NCharSet [] => false
+  | _ => true
+  end &&
+  (mn <=? match mx with Some v => v | None => USIZE_MAX end).
+
 Fixpoint bt_wf (ng : nat) (n : node) : bool :=
   match n with
   | NGoal => false
-  | NLoop1CharBody _ _ _ _ => false
+  | NLoop1CharBody body mn mx _ => bt_l1_ok body mn mx
   | NCat l => (fix go (l : list node) : bool := match l with [] => true | x :: t => bt_wf ng x && go t end) l
   | NAlt a b => bt_wf ng a && bt_wf ng b
   | NCaptureGroup _ c _ => bt_wf ng c
